@@ -61,6 +61,12 @@ class MapT(T):
     def __init__(self, val=Int): self.val = val
 
 
+class GListT(T):
+    """Python list with at most `maxlen` elements (a guarded list: slot k is present iff the length exceeds k)."""
+    def __init__(self, elem=Int, maxlen=3):
+        self.elem, self.maxlen = elem, maxlen
+
+
 class ConstT(T):
     """A parameter fixed to a concrete Python value (e.g. a class object)."""
     def __init__(self, v): self.v = v
@@ -107,6 +113,10 @@ def mk(t, name, inv):
         if isinstance(t.val, MapT):
             return MapV(fresh(name + ".map2", z3.ArraySort(I, AII)))
         return MapV(fresh(name + ".map", AII))
+    if isinstance(t, GListT):
+        n = fresh(name + ".len", I)
+        inv.append(z3.And(0 <= n, n <= t.maxlen))
+        return ListV((n > k, mk(t.elem, f"{name}[{k}]", inv)) for k in range(t.maxlen))
     if isinstance(t, ConstT):
         return t.v
     raise TypeError(f"unknown contract type {t!r}")
